@@ -96,9 +96,11 @@ WireDomain(d) == StripDot(d)
 \* every Set-Cookie of the whole flow must carry exactly this attribute tuple
 Req_Attrs(d) == [secure |-> d.secure, httpOnly |-> d.httpOnly, sameSite |-> d.sameSite, path |-> d.path,
                  domain |-> WireDomain(Req_Domain(d.host, d.domains))]
+\* (cookiesSeen is a guard against vacuity - a flow sets and deletes at least the CSRF and the session cookie - not a statement
+\* about how many Set-Cookie headers an implementation may use)
 CaseRec(d) == [fam |-> "c18", in |-> [d EXCEPT !.domains = SetAsSeq(d.domains)],
                req  |-> [attrs |-> <<Req_Attrs(d)>>, maxLen |-> [le |-> 4096], sessionCookiesAfterSignOut |-> 0,
-                         cookiesSeen |-> [ge |-> 6], refreshCookie |-> "set"],
+                         cookiesSeen |-> [ge |-> 3], refreshCookie |-> "set"],
                impl |-> [domain |-> WireDomain(Impl_Domain(d.host \o d.port, d.domains))]]
 EmitVocab == JsonSerialize("vocab.json", Vocab)
 EmitCase  == CSVWrite("%1$s", <<ToJson(CaseRec(c))>>, "cases.ndjson")
